@@ -107,10 +107,12 @@ CHECKS['C15'] = dict(
         'write_file is proved to write exactly the file it is given; add_failures is proved to write only under tmp_dir, nothing when '
         'temporaries are not requested, and exactly one raw file per side lacking a path plus the post-processed pair. The message/file '
         'contents sentences (named files exist, raw actual holds the actual, post-processed pair differs on unexcused lines, passes write '
-        'nothing) are decided by the bounded layer (labelled) with directory snapshots; check_strings is proved (1x1 and 2x2 line views) to call '
+        'nothing) are decided by the bounded layer (labelled) with directory snapshots; reconstruct is proved (one view per text shape up to N x N lines, '
+        'symbolic contents, abstract removal / ignored sets; its precondition is discharged at the call site in check_strings) to return two texts of the '
+        'same length that differ at exactly as many positions as there are kept, differing, unexcused pairs, each of which appears in them; check_strings is proved (1x1 and 2x2 line views) to call '
         'add_failures exactly when it reports a failure, so a passing comparison reports and writes nothing.',
-   note='Trusted: A-fs effect table, A-path (separator-free tails, join under), compare_with/get_encoding write nothing, z3. reconstruct() '
-        'is bounded only.',
+   note='Trusted: A-fs effect table, A-path (separator-free tails, join under), compare_with/get_encoding write nothing, z3. diff_marker / format_marker are assumed to be functions of their arguments; '
+        'texts longer than the views are bounded only.',
    technique='contract-based deductive verification (loop invariant, ghost write-set frames) + bounded runtime contracts',
    design_ref='DESIGN.md 5 C15')
 
